@@ -1,5 +1,6 @@
 /*
- * Contract of every portable parity generator (raid/int.c, raid/intz.c, raid_gen_ref in raid/check.c? no: raid/test.c)
+ * Contract of every portable parity generator (raid/int.c, raid/intz.c), of raid_gen_ref (raid/module.c) and of the
+ * dispatcher raid_gen (raid/raid.c)
  *
  *   requires  nd == ND (1..251), size == SIZE, v[0..ND+NP) point to ND+NP disjoint blocks of SIZE bytes
  *   ensures   for every parity j < NP and byte c < SIZE:
@@ -97,9 +98,14 @@ void h_gen(void)
 			expect[j][c] = s;
 		}
 
+#ifdef GEN_VIA_DISPATCH
+	/* REAL raid_init() (raid/module.c) binds raid_gen_ptr[]; under cbmc it is compiled with include/noasm/config.h
+	 * (no inline-assembly variants), natively with the repo's own configuration and the CPU's variants */
+	raid_init();
+#endif
 	raid_mode(MODE); /* REAL: selects the generator matrix read by the int8 variants */
 #ifdef GEN_VIA_DISPATCH
-	GEN_FN(ND, NP, SIZE, v);
+	raid_gen(ND, NP, SIZE, v);
 #else
 	GEN_FN(ND, SIZE, v);
 #endif
